@@ -64,6 +64,7 @@ type Opts struct {
 	RequireMin bool // every shard and the metachain have eligible+waiting >= minimum
 	ForceFix   bool // waiting-list fix active at Input.Epoch
 	HeavyLeave bool // bias towards large leaving volumes
+	CfgHeavy   bool // most inputs carry 1-3 MaxNodesChangeConfig entries, NodesToShufflePerShard often below the minimum
 }
 
 // Shards lists the shard ids of the input: 0..NbShards-1 and the metachain
@@ -90,12 +91,15 @@ func (in *Input) FixActive() bool { return in.Epoch >= in.FixEpoch }
 func (in *Input) BalanceActive() bool { return in.Epoch >= in.BalanceEpoch }
 
 // MaxSwap is the active NodesToShufflePerShard
-func (in *Input) MaxSwap() uint32 {
+func (in *Input) MaxSwap() uint32 { return in.MaxSwapAt(in.Epoch) }
+
+// MaxSwapAt is the NodesToShufflePerShard active at an epoch
+func (in *Input) MaxSwapAt(epoch uint32) uint32 {
 	cfgs := append([]config.MaxNodesChangeConfig(nil), in.MaxNodesCfg...)
 	sort.SliceStable(cfgs, func(i, j int) bool { return cfgs[i].EpochEnable < cfgs[j].EpochEnable })
 	v := in.NodesShard
 	for _, c := range cfgs {
-		if in.Epoch >= c.EpochEnable {
+		if epoch >= c.EpochEnable {
 			v = c.NodesToShufflePerShard
 		}
 	}
@@ -198,7 +202,11 @@ func Gen(rng *vk.Rand, o Opts) *Input {
 	if o.ForceFix && in.FixEpoch > in.Epoch {
 		in.FixEpoch = uint32(rng.Intn(int(in.Epoch) + 1))
 	}
-	for i, n := 0, pick(rng, 40, 30, 20, 10); i < n; i++ {
+	nCfg := pick(rng, 40, 30, 20, 10)
+	if o.CfgHeavy {
+		nCfg = pick(rng, 15, 35, 30, 20)
+	}
+	for i := 0; i < nCfg; i++ {
 		in.MaxNodesCfg = append(in.MaxNodesCfg, config.MaxNodesChangeConfig{
 			EpochEnable:            uint32(rng.Intn(13)),
 			MaxNumNodes:            uint32(rng.Intn(100)),
